@@ -341,7 +341,17 @@ def _task(X):
     return out
 
 
+_ANALYSE_CACHE = {}
+
+
 def analyse(P, tier='quick'):
+    key = (getattr(P, 'digest', id(P)), tier)
+    if key not in _ANALYSE_CACHE:
+        _ANALYSE_CACHE[key] = _analyse(P, tier)
+    return _ANALYSE_CACHE[key]
+
+
+def _analyse(P, tier='quick'):
     R = ReaderRoles(P)
     table = P.fold_module_const('pydiffx.sections', 'VALID_SECTION_STATES')
     var, loop = None, None        # (histories are real: no loop-state injection)
